@@ -32,6 +32,11 @@ Theorem C10_injective : forall s e nopts tbl, coding_ok s e nopts tbl = true ->
 Proof. exact coding_injective. Qed.
 Print Assumptions C10_injective.
 
+Theorem C10_design_space_not_smaller : forall s e nopts tbl, coding_ok s e nopts tbl = true ->
+  forall outs, (forall o, In o tbl -> In (o_out o) outs) -> length (enum_M s e) <= length outs.
+Proof. exact coding_count. Qed.
+Print Assumptions C10_design_space_not_smaller.
+
 Theorem C10_verdict : forall s e nopts tbl, coding_verdict s e nopts tbl = 0 <-> coding_ok s e nopts tbl = true.
 Proof. exact verdict_zero_iff. Qed.
 Print Assumptions C10_verdict.
